@@ -14,6 +14,7 @@
 
 
 import jax.numpy as jnp
+import jax.tree_util as jtu
 
 from genjax._src.core.compiler.interpreters.incremental import (
     Diff,
@@ -300,10 +301,18 @@ class Switch(Generic[R], GenerativeFunction[R]):
         rets = multi_switch(new_idx, fs, f_args)
 
         subtraces = list(t[0] for t in rets)
-        score, weight, retdiff = tree_choose(
-            new_idx, list((tr.get_score(), w, rd) for tr, w, rd, _ in rets)
+        score, weight, retval = tree_choose(
+            new_idx,
+            list((tr.get_score(), w, Diff.tree_primal(rd)) for tr, w, rd, _ in rets),
         )
-        retval: R = Diff.tree_primal(retdiff)
+        # Branches may tag their return values differently (the change tags are static, so
+        # they cannot be selected by index): a leaf is unchanged only if every branch says so.
+        tangent = jtu.tree_map(
+            lambda *ts: NoChange if all(t == NoChange for t in ts) else UnknownChange,
+            *(Diff.tree_tangent(rd) for _, _, rd, _ in rets),
+            is_leaf=Diff.is_change_tangent,
+        )
+        retdiff = Diff.tree_diff(retval, tangent)
 
         if Diff.tree_tangent(idx_diff) == UnknownChange:
             weight -= trace.get_score()
